@@ -993,6 +993,57 @@ class _IdDomain(Domain):
         return [0, 1]
 
 
+def _lazy_absent_filter(v):
+    """Is this expression an iterator that yields, item by item, only values
+    found `not in self._entities` when they are pulled?  (filterfalse / filter
+    with a membership lambda, or a generator expression with that condition -
+    NOT dropwhile / takewhile, which stop testing after the first item.)"""
+    def member(test, var, want_in):
+        return (isinstance(test, ast.Compare) and len(test.ops) == 1
+                and isinstance(test.ops[0], ast.In if want_in else ast.NotIn)
+                and isinstance(test.left, ast.Name) and test.left.id == var
+                and norm(test.comparators[0]) == E)
+    if isinstance(v, ast.Call) and len(v.args) == 2 and not v.keywords \
+            and isinstance(v.args[0], ast.Lambda) \
+            and len(v.args[0].args.args) == 1:
+        fn = (dotted(v.func) or '').split('.')[-1]
+        var = v.args[0].args.args[0].arg
+        if fn == 'filterfalse':
+            return member(v.args[0].body, var, True)
+        if fn == 'filter':
+            return member(v.args[0].body, var, False)
+    if isinstance(v, ast.GeneratorExp) and len(v.generators) == 1 \
+            and isinstance(v.generators[0].target, ast.Name) \
+            and isinstance(v.elt, ast.Name) \
+            and v.elt.id == v.generators[0].target.id:
+        return any(member(c, v.elt.id, False) for c in v.generators[0].ifs)
+    return False
+
+
+def _drawn_from_filtered(program, world, ident, trace):
+    """next(self.<x>) where every store of self.<x> in the class family is a
+    lazy not-in-the-table filter."""
+    call = [e.extra for e in trace if e.kind == 'fresh'
+            and e.sym.text == ident]
+    cn = getattr(call[0], 'node', None) if call else None
+    if not (isinstance(cn, ast.Call) and dotted(cn.func) == 'next'
+            and len(cn.args) == 1 and isinstance(cn.args[0], ast.Attribute)
+            and dotted(cn.args[0].value) == 'self'):
+        return False
+    attr = cn.args[0].attr
+    vals = []
+    for c in [world] + program.subclasses(world) + [
+            b for b in program.mro(world) if b is not world]:
+        for n in ast.walk(c.node):
+            if isinstance(n, (ast.Assign, ast.AnnAssign, ast.AugAssign)):
+                ts = n.targets if isinstance(n, ast.Assign) else [n.target]
+                if any(isinstance(t, ast.Attribute) and t.attr == attr
+                       for t in ts):
+                    vals.append(n.value)
+    return bool(vals) and all(v is not None and _lazy_absent_filter(v)
+                              for v in vals)
+
+
 def check_fresh_id(program, rep):
     f = program.method('World', 'create_entity')
     world = program.cls('World')
@@ -1009,7 +1060,7 @@ def check_fresh_id(program, rep):
             continue
         nauto += 1
         ident = rv.node.id
-        proved = False
+        proved = _drawn_from_filtered(program, world, ident, ex.state.trace)
         for e in ex.state.trace:
             if e.kind == 'cond' and e.sym.text == f'{ident} in {E}' \
                     and e.extra is False:
